@@ -618,3 +618,388 @@ Proof.
   exact (conj bool_multi_solve_never_13 (conj real_multi_solve_never_13 trop_multi_solve_never_13)).
 Qed.
 Print Assumptions C09_multi_solve_check_13_impossible_carriers.
+
+(** * tier B: PatternedTensor.solve (fggs/indices.py), model in Model/PSolve.v.
+    [a0], [a1] are the row and column patterns of [a] (they share physical axes), [e0] the pattern
+    of the first dimension of [b]; [below next x]: the physical axes of [x] have uids below the
+    counter [next]; [szc sz x]: every occurrence of a physical axis [k] in [x] carries the size
+    [sz k] (a PhysicalAxis object has one [_numel]).
+    [rng e v]          : [v] is in the support of the pattern [e] (a value of [e] at an in-range environment)
+    [aimg a0 a1 P v']  : [a] has a cell (v', v) of its pattern with [P v]
+    [closed_under a0 a1 P] : forall v', aimg a0 a1 P v' -> P v'
+    [psolve_loop]      : the [while True] loop of the current code (exit test of commit 6df0afb);
+                         [psolve_loop_old]: the loop before that commit (finding F25). *)
+Require Import Fggs.Model.Axis Fggs.Model.AxisCheck Fggs.Model.PSolve Fggs.Model.PSolveCheck.
+Require Import Fggs.Proofs.Axis_antiunify Fggs.Proofs.PSolve_anti Fggs.Proofs.PSolve_step Fggs.Proofs.PSolve_sized
+               Fggs.Proofs.PSolve_loop Fggs.Proofs.PSolve_term Fggs.Proofs.PSolve_fuel Fggs.Proofs.PSolve_oracle
+               Fggs.Proofs.PSolve_dense Fggs.Proofs.PSolve_main Fggs.Proofs.PSolve_check Fggs.Proofs.PSolve_nouf Fggs.Proofs.PSolve_tensor Fggs.Proofs.Instances_psolve.
+Notation below := Fggs.Proofs.Axis_complete_gen.below (only parsing).
+
+(** (B1) closure: when the loop exits normally and nothing was warned about, the support of the
+    computed solution axis [g] contains the support of [b] and is closed under [a] *)
+Theorem C09_psolve_loop_closed :
+  forall (next : positive) (a0 a1 e0 : axis) (sz : positive -> nat),
+    below next a0 -> below next a1 -> below next e0 ->
+    (forall k, In k (fv e0) -> ~ In k (fv a0 ++ fv a1)) ->
+    szc sz a0 -> szc sz a1 -> szc sz e0 ->
+  forall fuel g ents i',
+    psolve_loop fuel a0 a1 e0 (mkLI 0 next false []) = LDone g ents i' -> li_warn i' = false ->
+    (forall v, rng e0 v -> rng g v) /\ closed_under a0 a1 (rng g).
+Proof. exact psolve_loop_closed. Qed.
+Print Assumptions C09_psolve_loop_closed.
+
+(** ... and [g] has the size of [b]'s first dimension, each of its physical axes one size *)
+Theorem C09_psolve_loop_shape :
+  forall (next : positive) (a0 a1 e0 : axis) (sz : positive -> nat),
+    below next a0 -> below next a1 -> below next e0 ->
+    (forall k, In k (fv e0) -> ~ In k (fv a0 ++ fv a1)) ->
+    szc sz a0 -> szc sz a1 -> szc sz e0 ->
+  forall fuel g ents i',
+    psolve_loop fuel a0 a1 e0 (mkLI 0 next false []) = LDone g ents i' -> li_warn i' = false ->
+    numel g = numel e0 /\ (forall k n n', In (k, n) (fvn g) -> In (k, n') (fvn g) -> n = n').
+Proof. exact psolve_loop_shape. Qed.
+Print Assumptions C09_psolve_loop_shape.
+
+(** the [return b.clone()] exit: no column of [a] meets the support of [b] *)
+Theorem C09_psolve_loop_early :
+  forall (next : positive) (a0 a1 e0 : axis) (sz : positive -> nat),
+    below next a0 -> below next a1 -> below next e0 ->
+    (forall k, In k (fv e0) -> ~ In k (fv a0 ++ fv a1)) ->
+    szc sz a0 -> szc sz a1 -> szc sz e0 ->
+  forall fuel e' i',
+    psolve_loop fuel a0 a1 e0 (mkLI 0 next false []) = LEarly e' i' -> li_warn i' = false ->
+    forall v, rng e0 v -> rng a1 v -> False.
+Proof. exact psolve_loop_early. Qed.
+Print Assumptions C09_psolve_loop_early.
+
+(** the ingredients: one call of antiunify from the empty antisubst covers both arguments, and
+    covers nothing more than the first one when the exit test (injective renaming) holds;
+    a unifier computed without a warning preserves the sizes of the physical axes *)
+Theorem C09_antiunify_covers :
+  forall fuel (B : positive) (e f g : axis) (st' : astate),
+    Fggs.Proofs.Axis_antiunify_inv.below B e -> Fggs.Proofs.Axis_antiunify_inv.below B f ->
+    antiunify fuel e f (astate0 B) = Ok (g, st') -> as_warn st' = false ->
+    (forall v, rng e v -> rng g v) /\ (forall v, rng f v -> rng g v) /\
+    (acq_injective (as_list st') = true -> forall v, rng g v -> rng e v).
+Proof.
+  exact (fun fuel B e f g st' Be Bf H W =>
+           conj (anti_range1 fuel B e f g st' Be Bf H W)
+                (conj (anti_range2 fuel B e f g st' Be Bf H W)
+                      (fun Hi v => anti_injective fuel B e f g st' Be Bf H W v Hi))).
+Qed.
+Print Assumptions C09_antiunify_covers.
+
+Theorem C09_unify_sized :
+  forall fuel (e f : axis) (next : positive) (b : bool) (st : ustate) (sz : positive -> nat),
+    below next e -> below next f -> szc sz e -> szc sz f ->
+    unify fuel e f {| us_subst := []; us_next := next; us_warn := false |} = Ok (b, st) -> us_warn st = false ->
+    exists sz', agree next sz sz' /\ szs sz' (us_subst st).
+Proof. exact unify_sized. Qed.
+Print Assumptions C09_unify_sized.
+
+(** finding F25 (repaired in /repo commit 6df0afb): the former exit test -- every first part of
+    the antisubst is a physical axis -- also fired when ONE axis of [e] had been generalised to
+    TWO new axes; the loop then returned a support that is not closed (witness: [b] on the cells
+    (x, x, inl) of 2 x 2 x (1+1), [a] from column (r, inl, inl) to the rows (r', q, r)) ... *)
+Theorem C09_psolve_old_exit_refuted :
+  exists a0 a1 e0 next sz g ents i',
+    below next a0 /\ below next a1 /\ below next e0 /\
+    (forall k, In k (fv e0) -> ~ In k (fv a0 ++ fv a1)) /\
+    szc sz a0 /\ szc sz a1 /\ szc sz e0 /\
+    psolve_loop_old (loop_fuel e0) a0 a1 e0 (mkLI 0 next false []) = LDone g ents i' /\
+    li_warn i' = false /\ ~ closed_under a0 a1 (rng g).
+Proof. exact psolve_loop_old_refuted. Qed.
+Print Assumptions C09_psolve_old_exit_refuted.
+
+(** ... and a closed one under the guard that the repair turned into the exit test *)
+Theorem C09_psolve_old_exit_guarded :
+  forall (next : positive) (a0 a1 e0 : axis) (sz : positive -> nat),
+    below next a0 -> below next a1 -> below next e0 ->
+    (forall k, In k (fv e0) -> ~ In k (fv a0 ++ fv a1)) ->
+    szc sz a0 -> szc sz a1 -> szc sz e0 ->
+  forall fuel g ents i',
+    psolve_loop_old fuel a0 a1 e0 (mkLI 0 next false []) = LDone g ents i' -> li_warn i' = false ->
+    acq_injective ents = true ->
+    (forall v, rng e0 v -> rng g v) /\ closed_under a0 a1 (rng g).
+Proof. exact psolve_loop_old_guarded. Qed.
+Print Assumptions C09_psolve_old_exit_guarded.
+
+(** (B2) in every ordered star-semiring: if [rows] is a closed support of the system (every
+    nonzero of [A] in a column of [rows] lies in a row of [rows], [B] vanishes outside the rows
+    [rows] and outside the columns [cols]), then gathering the system along [rows] / [cols],
+    solving it with the dense routine and scattering the result back gives, entry by entry, the
+    dense routine's answer on the whole system: the least solution is zero outside the support
+    and, on it, the least solution of the projected system *)
+Theorem C09_restricted_solve_is_least :
+  forall (S : Type) (o : sr_ops S), sr_ring o -> sr_ordered o -> sr_star o ->
+  forall n m (rows cols : list nat) (A B : mat S),
+    NoDup rows -> (forall r, In r rows -> r < n) -> NoDup cols -> (forall c, In c cols -> c < m) ->
+    (forall i j, i < n -> In j rows -> ~ In i rows -> get2 o A i j = Semiring.zero o) ->
+    (forall i c, i < n -> c < m -> ~ In i rows -> get2 o B i c = Semiring.zero o) ->
+    (forall i c, i < n -> c < m -> ~ In c cols -> get2 o B i c = Semiring.zero o) ->
+  forall v w, v < n -> w < m ->
+    get2 o (scatter2 (Semiring.zero o) n m rows cols
+              (solve_model_mat o (length rows) (length cols)
+                 (gather2 (Semiring.zero o) rows rows A) (gather2 (Semiring.zero o) rows cols B))) v w
+    = get2 o (solve_model_mat o n m A B) v w.
+Proof. exact (@scatter_solve_gather). Qed.
+Print Assumptions C09_restricted_solve_is_least.
+
+(** if no nonzero of [A] lies in a column where [b] is nonzero, the least solution is [b] *)
+Theorem C09_rhs_only_least :
+  forall (S : Type) (o : sr_ops S), sr_ring o -> sr_ordered o ->
+  forall n (A : mat S) (b : vec S),
+    (forall i j, i < n -> j < n -> get2 o A i j = Semiring.zero o \/ get1 o b j = Semiring.zero o) ->
+    least_spec o n A b (get1 o b).
+Proof. exact (@rhs_only_least). Qed.
+Print Assumptions C09_rhs_only_least.
+
+(** hence PatternedTensor.solve denotes the least solution.  [A], [B]: the dense tensors the
+    arguments denote -- [A] vanishes outside the pattern of [a], [B] outside the rows of the
+    pattern of [b] and outside the columns [sup_cols ebs] (enumerated without repetition).
+    [psolve_dense] = gather along the computed axis [g], dense solve, scatter. *)
+Theorem C09_psolve_denotes_least :
+  forall (S : Type) (o : sr_ops S), sr_ring o -> sr_ordered o -> sr_star o ->
+  forall (next : positive) (a0 a1 b0 : axis),
+    below next a0 -> below next a1 -> below next b0 ->
+    (forall k, In k (fv b0) -> ~ In k (fv a0 ++ fv a1)) ->
+  forall sz, szc sz a0 -> szc sz a1 -> szc sz b0 ->
+  forall n m (A B : mat S), numel b0 = n ->
+    (forall i j, i < n -> j < n ->
+       (forall rho, inrange rho a0 -> inrange rho a1 -> eval rho a0 = i -> eval rho a1 = j -> False) ->
+       get2 o A i j = Semiring.zero o) ->
+    (forall i c, i < n -> c < m -> ~ rng b0 i -> get2 o B i c = Semiring.zero o) ->
+  forall fuel g ents i' ebs,
+    psolve_loop fuel a0 a1 b0 (mkLI 0 next false []) = LDone g ents i' -> li_warn i' = false ->
+    NoDup (sup_cols ebs) -> (forall c, In c (sup_cols ebs) -> c < m) ->
+    (forall i c, i < n -> c < m -> ~ In c (sup_cols ebs) -> get2 o B i c = Semiring.zero o) ->
+  forall w, w < m ->
+    least_spec o n A (col o n B w)
+      (fun v => if v <? n then get2 o (psolve_dense o n m g ebs A B) v w else Semiring.zero o).
+Proof. exact (@psolve_dense_least_spec). Qed.
+Print Assumptions C09_psolve_denotes_least.
+
+Theorem C09_psolve_equals_dense_solve :
+  forall (S : Type) (o : sr_ops S), sr_ring o -> sr_ordered o -> sr_star o ->
+  forall (next : positive) (a0 a1 b0 : axis),
+    below next a0 -> below next a1 -> below next b0 ->
+    (forall k, In k (fv b0) -> ~ In k (fv a0 ++ fv a1)) ->
+  forall sz, szc sz a0 -> szc sz a1 -> szc sz b0 ->
+  forall n m (A B : mat S), numel b0 = n ->
+    (forall i j, i < n -> j < n ->
+       (forall rho, inrange rho a0 -> inrange rho a1 -> eval rho a0 = i -> eval rho a1 = j -> False) ->
+       get2 o A i j = Semiring.zero o) ->
+    (forall i c, i < n -> c < m -> ~ rng b0 i -> get2 o B i c = Semiring.zero o) ->
+  forall fuel g ents i' ebs,
+    psolve_loop fuel a0 a1 b0 (mkLI 0 next false []) = LDone g ents i' -> li_warn i' = false ->
+    NoDup (sup_cols ebs) -> (forall c, In c (sup_cols ebs) -> c < m) ->
+    (forall i c, i < n -> c < m -> ~ In c (sup_cols ebs) -> get2 o B i c = Semiring.zero o) ->
+  forall v w, v < n -> w < m ->
+    get2 o (psolve_dense o n m g ebs A B) v w = get2 o (solve_model_mat o n m A B) v w.
+Proof. exact (@psolve_dense_least). Qed.
+Print Assumptions C09_psolve_equals_dense_solve.
+
+(** the [b.clone()] exit returns the least solution as well *)
+Theorem C09_psolve_early_exit_least :
+  forall (S : Type) (o : sr_ops S), sr_ring o -> sr_ordered o -> sr_star o ->
+  forall (next : positive) (a0 a1 b0 : axis),
+    below next a0 -> below next a1 -> below next b0 ->
+    (forall k, In k (fv b0) -> ~ In k (fv a0 ++ fv a1)) ->
+  forall sz, szc sz a0 -> szc sz a1 -> szc sz b0 ->
+  forall n m (A B : mat S),
+    (forall i j, i < n -> j < n ->
+       (forall rho, inrange rho a0 -> inrange rho a1 -> eval rho a0 = i -> eval rho a1 = j -> False) ->
+       get2 o A i j = Semiring.zero o) ->
+    (forall i c, i < n -> c < m -> ~ rng b0 i -> get2 o B i c = Semiring.zero o) ->
+  forall fuel e' i',
+    psolve_loop fuel a0 a1 b0 (mkLI 0 next false []) = LEarly e' i' -> li_warn i' = false ->
+  forall v w, v < n -> w < m -> get2 o (solve_model_mat o n m A B) v w = get2 o B v w.
+Proof. exact (@psolve_early_least). Qed.
+Print Assumptions C09_psolve_early_exit_least.
+
+(** the link to the tensors (vector right-hand side): for patterned tensors [a] (vaxes [a0; a1])
+    and [b] (vaxes [b0]) whose default is the semiring zero, [dense_mat n a] / [dense_col n b]
+    tabulate [PTensor.denote] (what [__getitem__] returns, C06); the model's result is the least
+    solution of the system they denote *)
+Theorem C09_psolve_tensor_least :
+  forall (S : Type) (o : sr_ops S), sr_ring o -> sr_ordered o -> sr_star o ->
+  forall (a b : PTensor.ptensor S) (a0 a1 b0 : axis) (next : positive) (sz : positive -> nat) (n : nat),
+    PTensor.vaxes a = [a0; a1] -> PTensor.vaxes b = [b0] ->
+    PTensor.default a = Semiring.zero o -> PTensor.default b = Semiring.zero o ->
+    below next a0 -> below next a1 -> below next b0 ->
+    (forall k, In k (fv b0) -> ~ In k (fv a0 ++ fv a1)) ->
+    szc sz a0 -> szc sz a1 -> szc sz b0 -> numel b0 = n ->
+  forall fuel g ents i',
+    psolve_loop fuel a0 a1 b0 (mkLI 0 next false []) = LDone g ents i' -> li_warn i' = false ->
+    least_spec o n (dense_mat n a) (col o n (dense_col n b) 0)
+      (fun v => if v <? n then get2 o (psolve_dense o n 1 g [] (dense_mat n a) (dense_col n b)) v 0
+                else Semiring.zero o).
+Proof. exact (@psolve_tensor_least). Qed.
+Print Assumptions C09_psolve_tensor_least.
+
+Theorem C09_psolve_tensor_early_least :
+  forall (S : Type) (o : sr_ops S), sr_ring o -> sr_ordered o -> sr_star o ->
+  forall (a b : PTensor.ptensor S) (a0 a1 b0 : axis) (next : positive) (sz : positive -> nat) (n : nat),
+    PTensor.vaxes a = [a0; a1] -> PTensor.vaxes b = [b0] ->
+    PTensor.default a = Semiring.zero o -> PTensor.default b = Semiring.zero o ->
+    below next a0 -> below next a1 -> below next b0 ->
+    (forall k, In k (fv b0) -> ~ In k (fv a0 ++ fv a1)) ->
+    szc sz a0 -> szc sz a1 -> szc sz b0 -> numel b0 = n ->
+  forall fuel e' i',
+    psolve_loop fuel a0 a1 b0 (mkLI 0 next false []) = LEarly e' i' -> li_warn i' = false ->
+  forall v, v < n ->
+    get1 o (solve_model o n (dense_mat n a) (col o n (dense_col n b) 0)) v = PTensor.denote S b [v].
+Proof. exact (@psolve_tensor_early_least). Qed.
+Print Assumptions C09_psolve_tensor_early_least.
+
+(** carrier instances: no law premise *)
+Theorem C09_psolve_equals_dense_solve_bool :
+  forall (next : positive) (a0 a1 b0 : axis),
+    below next a0 -> below next a1 -> below next b0 ->
+    (forall k, In k (fv b0) -> ~ In k (fv a0 ++ fv a1)) ->
+  forall sz, szc sz a0 -> szc sz a1 -> szc sz b0 ->
+  forall n m (A B : mat bool), numel b0 = n ->
+    (forall i j, i < n -> j < n ->
+       (forall rho, inrange rho a0 -> inrange rho a1 -> eval rho a0 = i -> eval rho a1 = j -> False) ->
+       get2 bool_ops A i j = false) ->
+    (forall i c, i < n -> c < m -> ~ rng b0 i -> get2 bool_ops B i c = false) ->
+  forall fuel g ents i' ebs,
+    psolve_loop fuel a0 a1 b0 (mkLI 0 next false []) = LDone g ents i' -> li_warn i' = false ->
+    NoDup (sup_cols ebs) -> (forall c, In c (sup_cols ebs) -> c < m) ->
+    (forall i c, i < n -> c < m -> ~ In c (sup_cols ebs) -> get2 bool_ops B i c = false) ->
+  forall v w, v < n -> w < m ->
+    get2 bool_ops (psolve_dense bool_ops n m g ebs A B) v w = get2 bool_ops (solve_model_mat bool_ops n m A B) v w.
+Proof. exact bool_psolve_dense_least. Qed.
+Print Assumptions C09_psolve_equals_dense_solve_bool.
+
+Theorem C09_psolve_equals_dense_solve_real :
+  forall (next : positive) (a0 a1 b0 : axis),
+    below next a0 -> below next a1 -> below next b0 ->
+    (forall k, In k (fv b0) -> ~ In k (fv a0 ++ fv a1)) ->
+  forall sz, szc sz a0 -> szc sz a1 -> szc sz b0 ->
+  forall n m (A B : mat ereal), numel b0 = n ->
+    (forall i j, i < n -> j < n ->
+       (forall rho, inrange rho a0 -> inrange rho a1 -> eval rho a0 = i -> eval rho a1 = j -> False) ->
+       get2 ereal_ops A i j = Semiring.zero ereal_ops) ->
+    (forall i c, i < n -> c < m -> ~ rng b0 i -> get2 ereal_ops B i c = Semiring.zero ereal_ops) ->
+  forall fuel g ents i' ebs,
+    psolve_loop fuel a0 a1 b0 (mkLI 0 next false []) = LDone g ents i' -> li_warn i' = false ->
+    NoDup (sup_cols ebs) -> (forall c, In c (sup_cols ebs) -> c < m) ->
+    (forall i c, i < n -> c < m -> ~ In c (sup_cols ebs) -> get2 ereal_ops B i c = Semiring.zero ereal_ops) ->
+  forall v w, v < n -> w < m ->
+    get2 ereal_ops (psolve_dense ereal_ops n m g ebs A B) v w = get2 ereal_ops (solve_model_mat ereal_ops n m A B) v w.
+Proof. exact real_psolve_dense_least. Qed.
+Print Assumptions C09_psolve_equals_dense_solve_real.
+
+Theorem C09_psolve_equals_dense_solve_viterbi :
+  forall (next : positive) (a0 a1 b0 : axis),
+    below next a0 -> below next a1 -> below next b0 ->
+    (forall k, In k (fv b0) -> ~ In k (fv a0 ++ fv a1)) ->
+  forall sz, szc sz a0 -> szc sz a1 -> szc sz b0 ->
+  forall n m (A B : mat trop), numel b0 = n ->
+    (forall i j, i < n -> j < n ->
+       (forall rho, inrange rho a0 -> inrange rho a1 -> eval rho a0 = i -> eval rho a1 = j -> False) ->
+       get2 trop_ops A i j = Semiring.zero trop_ops) ->
+    (forall i c, i < n -> c < m -> ~ rng b0 i -> get2 trop_ops B i c = Semiring.zero trop_ops) ->
+  forall fuel g ents i' ebs,
+    psolve_loop fuel a0 a1 b0 (mkLI 0 next false []) = LDone g ents i' -> li_warn i' = false ->
+    NoDup (sup_cols ebs) -> (forall c, In c (sup_cols ebs) -> c < m) ->
+    (forall i c, i < n -> c < m -> ~ In c (sup_cols ebs) -> get2 trop_ops B i c = Semiring.zero trop_ops) ->
+  forall v w, v < n -> w < m ->
+    get2 trop_ops (psolve_dense trop_ops n m g ebs A B) v w = get2 trop_ops (solve_model_mat trop_ops n m A B) v w.
+Proof. exact trop_psolve_dense_least. Qed.
+Print Assumptions C09_psolve_equals_dense_solve_viterbi.
+
+(** (B3) termination.  With [loop_fuel e0 = amsr e0 * (amsr e0 + 1) + 1] units of fuel ([amsr]
+    weighs physical axis occurrences by 1, product and sum nodes by 2) the model's loop does not
+    run out of fuel: for all patterns in normal form ([nouf]: no factor of size 1 inside a
+    product -- what __post_init__ and productAxis guarantee) whose physical axes have one size
+    each, the loop finishes within [amsr e0 * (amsr e0 + 1)] passes, unless a warning (index type
+    mismatch) is issued on the way.  (Not proved: that typed patterns never warn in LATER passes;
+    the typing judgement of C06 is not preserved by antiunify.  Failures of the fuel-bounded axis
+    functions are the separate outcome [LErr].) *)
+Theorem C09_psolve_loop_terminates :
+  forall (next : positive) (a0 a1 e0 : axis) (sz : positive -> nat),
+    below next a0 -> below next a1 -> below next e0 ->
+    (forall k, In k (fv e0) -> ~ In k (fv a0 ++ fv a1)) ->
+    szc sz a0 -> szc sz a1 -> szc sz e0 ->
+    nouf a0 = true -> nouf a1 = true -> nouf e0 = true ->
+    match psolve_loop (loop_fuel e0) a0 a1 e0 (mkLI 0 next false []) with
+    | LFuel _ i' => li_warn i' = false -> False
+    | _ => True
+    end.
+Proof. exact psolve_loop_terminates. Qed.
+Print Assumptions C09_psolve_loop_terminates.
+
+(** the same for arbitrary patterns, with the normal form of the clones as a premise on the trace
+    of the run (checked on every case by [psolve_axis_check], verdict 15).
+    Ingredients: one antiunify never increases the weight and decreases it by the number of
+    recorded pairs whose first part is not a physical axis; a pass that goes on with only physical
+    first parts increases the number of distinct physical axes, which the weight bounds; [unify]
+    (in the values it binds), [clone] under a size-preserving substitution and [antiunify]
+    preserve the normal form. *)
+Theorem C09_psolve_loop_terminates_partial :
+  forall (next : positive) (a0 a1 e0 : axis),
+    below next a0 -> below next a1 -> below next e0 ->
+    (forall k, In k (fv e0) -> ~ In k (fv a0 ++ fv a1)) ->
+    match psolve_loop (loop_fuel e0) a0 a1 e0 (mkLI 0 next false []) with
+    | LFuel _ i' => li_warn i' = false -> trace_nouf (li_trace i') = true -> False
+    | _ => True
+    end.
+Proof. exact psolve_loop_terminates_partial. Qed.
+Print Assumptions C09_psolve_loop_terminates_partial.
+
+Theorem C09_antiunify_measure :
+  forall fuel (e f : axis) (B : positive) (g : axis) (st' : astate),
+    antiunify fuel e f (astate0 B) = Ok (g, st') -> nouf f = true ->
+    amsr g + cntnp (as_list st') <= amsr e.
+Proof. exact anti_measure. Qed.
+Print Assumptions C09_antiunify_measure.
+
+Theorem C09_pass_splits :
+  forall fuel (B : positive) (e f g : axis) (st' : astate),
+    Fggs.Proofs.Axis_antiunify_inv.below B e -> Fggs.Proofs.Axis_antiunify_inv.below B f ->
+    antiunify fuel e f (astate0 B) = Ok (g, st') -> as_warn st' = false ->
+    acq_all_phys (as_list st') = true -> acq_injective (as_list st') = false -> dvars e < dvars g.
+Proof. exact pass_splits. Qed.
+Print Assumptions C09_pass_splits.
+
+Theorem C09_normal_form_preserved :
+  (forall fuel e f next b st, nouf e = true -> nouf f = true ->
+     unify fuel e f {| us_subst := []; us_next := next; us_warn := false |} = Ok (b, st) ->
+     forall k T, In (k, T) (us_subst st) -> nouf T = true)
+  /\ (forall sigma, Fggs.Proofs.Axis_subst.Sized sigma -> (forall k T, In (k, T) sigma -> nouf T = true) ->
+      forall fuel e c, Fggs.Proofs.Axis_clone.sized_for sigma e -> nouf e = true ->
+      clone fuel sigma e = Ok c -> nouf c = true)
+  /\ (forall fuel e f B g st', nouf e = true -> nouf f = true ->
+      antiunify fuel e f (astate0 B) = Ok (g, st') -> nouf g = true).
+Proof. exact (conj unify_nouf (conj clone_nouf anti_nouf)). Qed.
+Print Assumptions C09_normal_form_preserved.
+
+(** the oracles that judge the implementation's solution axis, and what verdict 0 of the check
+    function means *)
+Theorem C09_psolve_oracles_sound :
+  (forall b0 g, sizes_consistent (fvn b0) = true -> sizes_consistent (fvn g) = true ->
+     contains_b b0 g = true -> forall v, rng b0 v -> rng g v)
+  /\ (forall a0 a1 g, sizes_consistent (fvn a0 ++ fvn a1) = true -> sizes_consistent (fvn g) = true ->
+     (closed_b a0 a1 g = true <-> closed_under a0 a1 (rng g)))
+  /\ (forall a1 g, sizes_consistent (fvn a1) = true -> sizes_consistent (fvn g) = true ->
+     disjoint_b a1 g = true -> forall v, rng g v -> rng a1 v -> False)
+  /\ (forall e, (forall k n n', In (k, n) (fvn e) -> In (k, n') (fvn e) -> n = n') ->
+     NoDup (sup_rows e) /\ (forall v, In v (sup_rows e) <-> rng e v) /\ (forall v, In v (sup_rows e) -> v < numel e)).
+Proof.
+  exact (conj contains_b_sound
+        (conj (fun a0 a1 g Sa Sg => conj (closed_b_sound a0 a1 g Sa Sg) (closed_b_complete a0 a1 g Sa Sg))
+        (conj disjoint_b_sound
+              (fun e C => conj (sup_rows_nodup e C) (conj (sup_rows_rng e C) (sup_rows_bound e C)))))).
+Qed.
+Print Assumptions C09_psolve_oracles_sound.
+
+Theorem C09_psolve_axis_check_sound :
+  forall a_zero aps avs b_zero bps bvs next i_tag i_e i_iters i_warn a0 a1 b0 ebs r,
+    psolve_axes a_zero b_zero aps avs bps bvs next = Some (a0, a1, b0, ebs, r) ->
+    psolve_axis_check ((a_zero, aps, avs), (b_zero, bps, bvs), next, (i_tag, i_e, i_iters, i_warn)) = 0 ->
+    (i_tag = 0 /\ (forall v, rng b0 v -> rng i_e v) /\ closed_under a0 a1 (rng i_e)) \/
+    (i_tag = 1 /\ forall v, rng b0 v -> rng a1 v -> False).
+Proof. exact psolve_axis_check_sound. Qed.
+Print Assumptions C09_psolve_axis_check_sound.
